@@ -27,6 +27,9 @@ SEEDS = [
     ('walrus_comp_inner', "def f(d):\n    return [y for x in d if (y := x * 2) > 2]\nprint(f([1, 2, 3]))\n"),
     ('walrus_nested_comp', "def f(d):\n    r = [[(z := a + b) for a in d] for b in d]\n    return r, z\nprint(f([1, 2]))\n"),
     ('class_fallback', "x = 'global'\ndef f():\n    x = 'local'\n    class C:\n        y = x\n        x = x\n    return C.y, C.x\nprint(f())\n"),
+    ('global_multi_names', "def setup():\n    global first_setting, second_setting, third_setting\n    first_setting = 1\n    second_setting = None\n    third_setting = None\ndef reader():\n    return first_setting, second_setting, third_setting\nsetup()\nprint(reader())\n"),
+    ('global_multi_names_2', "def configure():\n    global alpha_value, beta_value\n    alpha_value = 'a'\n    beta_value = 'b'\ndef again():\n    global beta_value, gamma_value, alpha_value\n    gamma_value = alpha_value + beta_value\nconfigure()\nagain()\nprint(alpha_value, beta_value, gamma_value)\n"),
+    ('nonlocal_multi_names', "def outer():\n    left_total = 0\n    right_total = 0\n    middle_total = 0\n    def bump():\n        nonlocal left_total, right_total, middle_total\n        left_total += 1\n        right_total += 2\n        middle_total += 3\n    bump()\n    return left_total, right_total, middle_total\nprint(outer())\n"),
     ('nonlocal_chain', "def a():\n    v = 0\n    def b():\n        nonlocal v\n        v += 1\n        def c():\n            nonlocal v\n            v += 10\n            return v\n        return c()\n    return b()\nprint(a())\n"),
     ('global_in_nested', "g = 1\ndef a():\n    def b():\n        global g\n        g += 1\n    b()\n    return g\nprint(a())\n"),
     ('except_star', "try:\n    raise ExceptionGroup('g', [ValueError(1)])\nexcept* ValueError as e:\n    print(type(e).__name__)\n"),
